@@ -58,12 +58,12 @@ def zip_with_iterable_(
     """
 
     first = source
-    second = iter(seq)
 
     def subscribe(
         observer: abc.ObserverBase[tuple[_T, _TOther]],
         scheduler: abc.SchedulerBase | None = None,
     ):
+        second = iter(seq)
         index = 0
 
         def on_next(left: _T) -> None:
